@@ -9,7 +9,7 @@ ENGINE = "E2 detgrid"
 TECHNIQUE = ("Hypothesis-generated directory trees (depth <=3; children: literal/CHK files, SDMF/MDMF file caps with and without write authority, real SDMF/MDMF subdirectories, "
              "read-only links to directories, immutable directories, unknown future caps with rw+ro / ro. / imm. forms) built with write caps on the in-process grid, then "
              "walked through the root's read cap by a fresh client and by the SAME client before/after a write-cap walk (node cache); oracle = authority table per node + "
-             "substring scan of the directory plaintext a read-cap holder obtains + the write-cap holder recovers every child write cap")
+             "substring scan of the directory plaintext a read-cap holder obtains + the write-cap holder recovers every child write cap; optionally a second gateway with an access blacklist re-packs entries first")
 RULE = ("each case: a tree of 1-8 real directories and up to 20 other children; walks: 'fresh-ro' (new client, read cap), 'rw-then-ro' and 'ro-then-rw' (one client, both caps). "
         "For every node reached through the read cap: get_write_uri() is None, the node is read-only or unknown, mutating calls (set_uri/delete on directories, overwrite on "
         "mutable files) fail, and the node's cap string is not a write cap; the raw contents of every directory file, as downloaded with the read cap, contain neither any "
